@@ -22,6 +22,7 @@ import SqiProofs.DrbgRefine
 import SqiProofs.DrbgInc
 import SqiGen.Drbg
 import SqiProofs.AesCtMain
+import SqiProofs.Pad
 
 namespace SqiProps.C20
 open SqiModel SqiModel.Sponge
@@ -121,6 +122,25 @@ theorem shake128_inc_eq_spec (chunks : List (List UInt8)) (reqs : List Nat) :
   rw [h.2.2.2.2.2.2.2.2.2.2.2.1, h.2.2.2.2.2.2.2.2.2.2.2.2.1, h.2.2.2.2.2.2.2.2.2.2.2.2.2.1,
     h.2.2.2.2.2.2.2.2.2.2.2.2.2.2.2.1, genF_eq]
   exact SqiProofs.Sponge.incSession_eq_spec Fips202.keccakF 168 (by decide) (by decide) (by decide) 0x1F (by decide) chunks reqs
+
+/-- `pad10*1` at bit level = the byte padding: for every rate r > 0 and every message, the FIPS 202 bit string
+    M ‖ 1111 ‖ pad10*1(8r, |M| + 4) (Algorithm 9; bits packed into bytes least-significant first, Appendix B.1) is exactly
+    `msg ++ padBytes r 0x1F |msg|` — suffix byte 0x1F, zero bytes, 0x80 in byte r−1 of the last block, and the single byte
+    0x9F when the two coincide (|msg| ≡ r−1 mod r).  `Fips202.spongeWith` (hence `shake256_eq_spec`) absorbs that string. -/
+theorem pad10star1_bits_eq_bytes (r : Nat) (h0 : 0 < r) (msg : List UInt8) :
+    Fips202.bitsBytes ((msg.length / r + 1) * r) (Fips202.shakePaddedBits r msg)
+      = msg ++ Fips202.padBytes r 0x1F msg.length :=
+  SqiProofs.Pad.shake_padding_bits r h0 msg
+
+/-- the same for the SHA-3 suffix 01 (domain byte 0x06; single-byte case 0x86) -/
+theorem pad10star1_bits_eq_bytes_sha3 (r : Nat) (h0 : 0 < r) (msg : List UInt8) :
+    Fips202.bitsBytes ((msg.length / r + 1) * r)
+        (Fips202.bytesBits msg ++ [false, true] ++ Fips202.pad101 (8 * r) (8 * msg.length + 2))
+      = msg ++ Fips202.padBytes r 0x06 msg.length :=
+  SqiProofs.Pad.sha3_padding_bits r h0 msg
+
+example : Fips202.padBytes 136 0x1F 135 = [0x9F] ∧ Fips202.padBytes 136 0x1F 134 = [0x1F, 0x80] ∧
+    (Fips202.padBytes 136 0x1F 0).length = 136 := by decide
 
 /-! ### non-vacuity: NIST example values, kernel-evaluated in SqiProofs.C20Kat (specification only) -/
 example : Fips202.shake256 [] 32 = [0x46, 0xb9, 0xdd, 0x2b, 0x0b, 0xa8, 0x8d, 0x13, 0x23, 0x3b, 0x3f, 0xeb, 0x74, 0x3e,
